@@ -55,10 +55,11 @@ structure Cfg where
   listCloneSealed : Bool     -- F17: `List._sym_clone` passes `sealed`
   detachOnRemove : Bool      -- F78: `del l[i]` / `pop` / `remove` / `clear` / `popitem` detach what they remove
   insertCopiesOwn : Bool     -- F79: inserting an element of a list into that list copies it
+  notifyBulk : Bool          -- 6daab50: clear / popitem / sort / reverse deliver change notifications
   deriving DecidableEq, Repr
 
-def Cfg.pinned : Cfg := ⟨false, false, false, false, false⟩
-def Cfg.patched : Cfg := ⟨true, true, true, true, true⟩
+def Cfg.pinned : Cfg := ⟨false, false, false, false, false, false⟩
+def Cfg.patched : Cfg := ⟨true, true, true, true, true, true⟩
 
 /-- The object classes: 0 and 1 are the test classes of the harness (fields `k0 k1` / `k0 k1 k2`,
 all `Any`, default None, `allow_symbolic_assignment = True`); 2 is `pg.Ref`, 3 is
